@@ -63,6 +63,7 @@ SEGMENTATIONS = ['one', 'bytes', 'max-1', 'max', 'max+1', 'random', 'random2', '
 
 class Check(CheckBase):
     property_id = 'C10'
+    evaluations_counter = 'adapter_cases'
     level = 'exploration'
     rule = ('adapter cases = (min,max) over all valid pairs of {1,3,4,5,7,8,10,12,16,31,33,64,100,257,1000} '
             'x stream length (0..6max+7 exhaustive for max<=16, seeded beyond) x content kind x '
